@@ -170,6 +170,33 @@ impl<'a> Stats<'a> {
                         return;
                     }
                 }
+                // the returned iterator is an ordinary iterator: advancing it other than by next() (nth, skip, step_by,
+                // last, count) walks the same sequence
+                if self.rep.count("c06/range_compared") % 5 == 1 && !want.is_empty() {
+                    let n = (self.rep.count("c06/range_compared") as usize / 5) % (want.len() + 1);
+                    let nth = store.range(s.as_deref(), e.as_deref(), order).nth(n);
+                    let skipped: Vec<(Vec<u8>, Vec<u8>)> = store.range(s.as_deref(), e.as_deref(), order).skip(n).collect();
+                    let stepped: Vec<(Vec<u8>, Vec<u8>)> = store.range(s.as_deref(), e.as_deref(), order).step_by(2).collect();
+                    let mut it = store.range(s.as_deref(), e.as_deref(), order);
+                    let first = it.next();
+                    let then_nth = it.nth(1);
+                    let rest: Vec<(Vec<u8>, Vec<u8>)> = it.collect();
+                    let last = store.range(s.as_deref(), e.as_deref(), order).last();
+                    let count = store.range(s.as_deref(), e.as_deref(), order).count();
+                    self.rep.bump("c06/iterator_adaptors_compared");
+                    let ok = nth == want.get(n).cloned()
+                        && skipped == want.iter().skip(n).cloned().collect::<Vec<_>>()
+                        && stepped == want.iter().step_by(2).cloned().collect::<Vec<_>>()
+                        && first == want.first().cloned()
+                        && then_nth == want.get(2).cloned()
+                        && rest == want.iter().skip(3).cloned().collect::<Vec<_>>()
+                        && last == want.last().cloned()
+                        && count == want.len();
+                    if !ok {
+                        self.fail("overlay-range-iterator-advanced-by-nth-skip-or-step-differs", format!("{}: range({:?},{:?},{:?}) advanced with nth({}) / skip / step_by / last / count does not walk {:?}", what, s.as_ref().map(|x| hex(x)), e.as_ref().map(|x| hex(x)), order, n, want.iter().map(|(k, v)| format!("{}={}", hex(k), hex(v))).collect::<Vec<_>>()));
+                        return;
+                    }
+                }
                 let sh = shape(delta, base, s.as_deref(), e.as_deref(), order);
                 if sh.len() > 2 {
                     self.rep.fingerprints.insert(fp_str(&sh));
